@@ -517,7 +517,7 @@ pub fn run(run: &Run) {
         i64::MAX - 1,
         i64::MAX,
     ];
-    let nrand = run.opts.size(15_000, 1_500_000);
+    let nrand = run.opts.size(60_000, 3_000_000);
     let mut r0 = Rng::derive(seed, "c06-ints", 0);
     for _ in 0..nrand {
         ints.push(if r0.bool() {
@@ -540,7 +540,7 @@ pub fn run(run: &Run) {
     });
 
     // ---- integer ranges
-    let n = run.opts.size(20_000, 2_000_000);
+    let n = run.opts.size(80_000, 4_000_000);
     run.parallel("int-range", n, |i, l| {
         let mut r = Rng::derive(seed, "c06-range", i);
         let (a, b) = match i {
@@ -640,7 +640,7 @@ pub fn run(run: &Run) {
     });
 
     // ---- random byte strings in every form, raw strings with tricky bodies
-    let n = run.opts.size(20_000, 2_000_000);
+    let n = run.opts.size(80_000, 4_000_000);
     run.parallel("bytes", n, |i, l| {
         let mut r = Rng::derive(seed, "c06-bytes", i);
         let len = r.below(40);
@@ -736,7 +736,7 @@ pub fn run(run: &Run) {
     });
 
     // ---- IP addresses, CIDRs (every prefix length), ranges
-    let n = run.opts.size(6_000, 600_000);
+    let n = run.opts.size(24_000, 1_200_000);
     run.parallel("ip", n, |i, l| {
         let mut r = Rng::derive(seed, "c06-ip", i);
         let a = gen_ip(&mut r);
